@@ -55,8 +55,8 @@ def labelKindOk (a : Ast) (k : DiscKind) (l : String) : Bool :=
   (match k with
    | .bool => l == "TRUE" || l == "FALSE"
    | .enum e => e.variants.any (·.name == l)
-   | .u32 => (labelValue a l).isSome && l != "TRUE" && l != "FALSE"
-   | .i32 => (match labelValue a l with | some v => v < 2^31 | none => false) && l != "TRUE" && l != "FALSE"
+   | .u32 => (labelValue a l).isSome && l != "TRUE" && l != "FALSE" && safeName l == l
+   | .i32 => (match labelValue a l with | some v => v < 2^31 | none => false) && l != "TRUE" && l != "FALSE" && safeName l == l
    | .unsupported => false)
 
 def allLabels (u : Union) : List String :=
@@ -79,10 +79,13 @@ def unionOk (a : Ast) (u : Union) : Bool :=
    | [] => true
    | _ :: rest => !(rest.contains "default"))
 
+def variantNat (v : Variant) : Option Nat :=
+  match v.value with | .numeric i => some i.toNat | .str _ => none
+
 def enumOk (e : Enum) : Bool :=
-  !e.variants.isEmpty &&
+  !e.variants.isEmpty && decide ((e.variants.map (·.name)).Nodup) &&
   e.variants.all (fun v => match v.value with | .numeric i => 0 ≤ i && i < 2^31 | .str _ => false) &&
-  distinctNats (e.variants.filterMap fun v => match v.value with | .numeric i => some i.toNat | .str _ => none)
+  decide ((e.variants.map variantNat).Nodup)
 
 def typedefOk (a : Ast) (td : Typedef) : Bool :=
   (match td.alias.unwrapArray with | .ident n => n != td.target.asStr | _ => false) &&
@@ -116,9 +119,32 @@ def keysOk (a : Ast) : Bool := a.types.all (fun kv => kv.1 == kv.2.rustName && n
 
 /-- constant and enum-member names are identifiers proper: not numerals (a label `5` must mean five) and not TRUE/FALSE -/
 def constNamesOk (a : Ast) : Bool :=
-  a.constants.all fun kv => (parseDecOrHex kv.1).isNone && kv.1 != "TRUE" && kv.1 != "FALSE"
+  a.constants.all fun kv => (parseDecOrHex kv.1).isNone && kv.1 != "TRUE" && kv.1 != "FALSE" &&
+    (match kv.2 with | .constValue t => safeName t == t | _ => true)
+
+/-- every enum member is in the constant index under its own name, pointing at its enum (what `ConstantIndex::new` builds) -/
+def enumConstsOk (a : Ast) : Bool :=
+  a.types.all fun kv => match kv.2 with
+    | .enum e => e.variants.all fun v => decide (bget v.name a.constants = some (.enumValue kv.1 v.name))
+    | _ => true
+
+/-- every enum entry of the constant index names a member of a declared enum -/
+def constsWellFormed (a : Ast) : Bool :=
+  a.constants.all fun kv => match kv.2 with
+    | .constValue _ => true
+    | .enumValue e v => v == kv.1 &&
+        (match bget e a.types with
+         | some (.enum en) => en.variants.any (·.name == v)
+         | _ => false)
 
 /-- the supported subset -/
-def Supported (a : Ast) : Bool := keysOk a && a.types.all (fun kv => typeOk a kv.2) && constNamesOk a
+def Supported (a : Ast) : Bool :=
+  keysOk a && a.types.all (fun kv => typeOk a kv.2) && constNamesOk a && enumConstsOk a && constsWellFormed a
+
+theorem Supported.facts {a : Ast} (h : Supported a = true) :
+    keysOk a = true ∧ a.types.all (fun kv => typeOk a kv.2) = true ∧ constNamesOk a = true ∧ enumConstsOk a = true ∧
+      constsWellFormed a = true := by
+  simp only [Supported, Bool.and_eq_true] at h
+  exact ⟨h.1.1.1.1, h.1.1.1.2, h.1.1.2, h.1.2, h.2⟩
 
 end Fx
